@@ -70,3 +70,11 @@ def handle_impl(u, name, props):
         Fn('new', props=props, ret='r'),
         Fn('as_usize', props=props, ret='r'),
     ], extra=ghost)
+
+
+def int_specs(u):
+    import os
+    from vx.gen import VERIF
+    with open(os.path.join(VERIF, 'trusted/int_specs.rs')) as f:
+        txt = f.read()
+    u.trusted_text(txt, 'assume_specification isize::abs (requires != MIN), isize::unsigned_abs (trusted/int_specs.rs)')
